@@ -132,14 +132,19 @@ def run(chk):
         rows.append((f"SSPOR(n_sensors={n}).fit", f"g_sspor_fit_count {n} {nf}", lambda n=n: SSPOR(n_sensors=n).fit(X, quiet=True), True))
 
     # ---- SSPOC
+    y3 = np.arange(nrows) % 3                       # a three-class labelling: sensor_coef_ is then a matrix (n_features x 3)
+
     def sspoc_at(stage):
         m = SSPOC(n_sensors=3)
+        if stage == 3:
+            impl.quiet(m.fit, X, y3, quiet=True)
+            return m
         if stage >= 1:
             impl.quiet(m.fit, X, y, quiet=True)
         if stage >= 2:
             impl.quiet(m.update_sensors, n_sensors=5, xy=(X, y), quiet=True)
         return m
-    for stage in (0, 1, 2):
+    for stage in (0, 1, 2, 3):
         fitted = "true" if stage else "false"
         for v in values(nf):
             for thr in (None, 0.5):
@@ -147,7 +152,7 @@ def run(chk):
                              f"g_sspoc_update_sensors {fitted} {nf} {coq_pv(v)} {'true' if thr is not None else 'false'}",
                              lambda v=v, stage=stage, thr=thr: sspoc_at(stage).update_sensors(n_sensors=pyv(v), threshold=thr, quiet=True), True))
         rows.append((f"SSPOC[{stage}].selected_sensors", f"g_sspoc_getter {fitted}", lambda stage=stage: sspoc_at(stage).selected_sensors, stage == 0))
-        rows.append((f"SSPOC[{stage}].predict", f"g_sspoc_getter {fitted}", lambda stage=stage: sspoc_at(stage).predict(probe[:, :3] if stage == 1 else probe[:, :5]), stage == 0))
+        rows.append((f"SSPOC[{stage}].predict", f"g_sspoc_getter {fitted}", lambda stage=stage: sspoc_at(stage).predict(probe[:, :3] if stage in (1, 3) else probe[:, :5]), stage == 0))
         if stage:
             for v in values(nrows):
                 for xr in (4, nrows):
